@@ -192,6 +192,13 @@ func tokenizeStream(src io.Reader, normalize bool, dict *dictionary, updateDict 
 					continue
 				}
 
+				// The carriage return of a CR LF line end does not end the word if the
+				// word ends in a hyphen: the hyphen is left for the line feed to find,
+				// which joins the word with its remainder on the next line.
+				if r == '\r' && obuf[len(obuf)-1] == '-' {
+					continue
+				}
+
 				// This is a space between word characters, so we assemble the word as a
 				// token and flush it out.
 				idx -= n
